@@ -106,6 +106,37 @@ def search_multi_nf(chk, r, n):
         chk.search_case("sv_terms_use_point_nf", not bad, what="scale-variation entries depend on the other points of the run: " + ", ".join(bad[:3]), data=sample, sample=sample)
 
 
+def search_sector_mapping(chk, r):
+    """which splitting function multiplies which flavour sector in the a_s lnF and a_s^2 lnF terms
+    (DGLAP: q+qbar differences evolve with P_ns+, q-qbar differences and the valence with P_ns-, the
+    quark singlet with P_qq, P_qg): the real `sector_mapping` evaluated on marker matrices"""
+    from eko import basis_rotation as br
+
+    from yadism.coefficient_functions import splitting_functions as split
+
+    labels = sorted({k for d_ in split.raw_labels for k in d_})
+    for nf in (3, 4, 5, 6):
+        mats = {(lab, nf): np.array([[float(7 * i_ + 1), 0.0], [float(i_ + 2), float(3 * i_ + 5)]]) for i_, lab in enumerate(labels)}
+        try:
+            smap = split.sector_mapping(2, mats, nf)
+        except Exception as e:  # noqa
+            chk.search_case("sector_mapping_dglap", False, what=f"sector_mapping(2, ., {nf}): {type(e).__name__}: {e}"[:200], data=dict(nf=nf))
+            continue
+        ns = br.non_singlet_pids_map
+        expected = {
+            (1, 1, 0): {(ns["ns+"], 0): "P_qq_0", (ns["ns-"], 0): "P_qq_0", (ns["nsV"], 0): "P_qq_0", (100, 100): "P_qq_0", (100, 21): "P_qg_0"},
+            (2, 1, 0): {(ns["ns+"], 0): "P_nsp_1", (ns["ns-"], 0): "P_nsm_1", (ns["nsV"], 0): "P_nsm_1", (100, 100): "P_qq_1", (100, 21): "P_qg_1"},
+        }
+        names = {ns["ns+"]: "ns+", ns["ns-"]: "ns-", ns["nsV"]: "nsV", 100: "S", 21: "g"}
+        for key, table in expected.items():
+            for sector, lab in table.items():
+                got = smap.get(key, {}).get(sector)
+                ok = got is not None and np.array_equal(np.asarray(got), mats[lab, nf])
+                which = [l_ for l_ in labels if got is not None and np.array_equal(np.asarray(got), mats[l_, nf])]
+                d = dict(term=f"a_s^{key[0]} lnF^{key[1]} lnR^{key[2]}", sector=(names.get(sector[0], sector[0]), names.get(sector[1], sector[1])), nf=nf, expected=lab, got=which or "none of the labels")
+                chk.search_case("sector_mapping_dglap", ok, what=f"nf={nf}: the {d['term']} term of sector {d['sector']} uses {d['got']} instead of {lab}", data=d, sample=d if key == (2, 1, 0) and nf == 4 and lab == "P_nsm_1" else None)
+
+
 def run(tier):
     chk = common.Check("C05", tier)
     thorough = tier == "thorough"
@@ -113,6 +144,7 @@ def run(tier):
     r = common.rng("C05")
     corr_sv.run_sv(chk, 600 if thorough else 60, r)
     search_products(chk, r)
+    search_sector_mapping(chk, r)
     search_multi_nf(chk, r, 12 if thorough else 2)
     search_switch_off(chk, r, 40 if thorough else 5, 3 if thorough else 2)
     if not thorough:
